@@ -6,7 +6,8 @@ use std::sync::Arc;
 use zksync_concurrency::{ctx, sync};
 use zksync_consensus_roles::validator;
 
-use crate::{v2_chonky_bft as v2, Config, FromNetworkMessage, ToNetworkMessage};
+use super as v2;
+use crate::{Config, FromNetworkMessage, ToNetworkMessage};
 
 /// Read-only view of the replica state.
 #[derive(Debug, Clone)]
@@ -25,85 +26,142 @@ pub struct Snapshot {
     pub timeout_qcs_cache: Vec<validator::ViewNumber>,
 }
 
-/// The replica state machine with its channels held by the caller.
+/// Outcome class of one handler invocation (mirrors the crate-private handler error enums).
+#[derive(Debug)]
+pub enum StepError {
+    Old,
+    InvalidLeader,
+    InvalidSignature,
+    InvalidProposal(validator::v2::LeaderProposalVerifyError),
+    InvalidCommit(validator::v2::ReplicaCommitVerifyError),
+    InvalidTimeout(validator::v2::ReplicaTimeoutVerifyError),
+    InvalidNewView(validator::v2::ReplicaNewViewVerifyError),
+    ProposalAlreadyPruned,
+    ReproposalWithPayload,
+    MissingPayload,
+    OversizedPayload,
+    MissingPreviousPayload,
+    InvalidPayload,
+    NonValidatorSigner,
+    DuplicateSigner,
+    /// `ctx::Error::Internal`: the replica stops.
+    Internal(String),
+    Canceled,
+    OtherProtocolVersion,
+}
+
+fn internal(e: ctx::Error) -> StepError {
+    match e {
+        ctx::Error::Canceled(_) => StepError::Canceled,
+        ctx::Error::Internal(e) => StepError::Internal(format!("{e:#}")),
+    }
+}
+
+/// The replica state machine; the outbound channel is supplied by the caller.
 pub struct Replica {
     sm: v2::StateMachine,
-    outbound: ctx::channel::UnboundedReceiver<ToNetworkMessage>,
     proposer: sync::watch::Receiver<Option<validator::v2::ProposalJustification>>,
     _inbound: sync::prunable_mpsc::Sender<FromNetworkMessage>,
 }
 
 impl Replica {
     /// `StateMachine::start`: loads the persisted replica state through the engine manager.
-    pub async fn start(ctx: &ctx::Ctx, cfg: Arc<Config>) -> ctx::Result<Self> {
-        let (out_send, out_recv) = ctx::channel::unbounded();
+    pub async fn start(
+        ctx: &ctx::Ctx,
+        cfg: Arc<Config>,
+        outbound: ctx::channel::UnboundedSender<ToNetworkMessage>,
+    ) -> ctx::Result<Self> {
         let (in_send, in_recv) = crate::create_input_channel();
         let (prop_send, prop_recv) = sync::watch::channel(None);
-        let sm = v2::StateMachine::start(ctx, cfg, out_send, in_recv, prop_send).await?;
+        let sm = v2::StateMachine::start(ctx, cfg, outbound, in_recv, prop_send).await?;
         Ok(Self {
             sm,
-            outbound: out_recv,
             proposer: prop_recv,
             _inbound: in_send,
         })
     }
 
     /// The prologue of `StateMachine::run`: view 0 times out immediately.
-    pub async fn run_prologue(&mut self, ctx: &ctx::Ctx) -> ctx::Result<()> {
+    pub async fn run_prologue(&mut self, ctx: &ctx::Ctx) -> Result<(), StepError> {
         if self.sm.view_number == validator::ViewNumber(0) {
-            self.sm.start_timeout(ctx).await?;
+            self.sm.start_timeout(ctx).await.map_err(internal)?;
         }
         Ok(())
     }
 
     /// The timer branch of `StateMachine::run`.
-    pub async fn start_timeout(&mut self, ctx: &ctx::Ctx) -> ctx::Result<()> {
-        self.sm.start_timeout(ctx).await
+    pub async fn start_timeout(&mut self, ctx: &ctx::Ctx) -> Result<(), StepError> {
+        self.sm.start_timeout(ctx).await.map_err(internal)
     }
 
-    /// The message branch of `StateMachine::run`: dispatches to the handler of the message
-    /// kind. `Err` carries the `Debug` rendering of the handler's error.
+    /// The message branch of `StateMachine::run`: dispatches to the handler of the message kind.
     pub async fn process(
         &mut self,
         ctx: &ctx::Ctx,
         msg: validator::Signed<validator::ConsensusMsg>,
-    ) -> Result<(), String> {
+    ) -> Result<(), StepError> {
+        use v2::{commit, new_view, proposal, timeout};
         #[allow(irrefutable_let_patterns)]
         let validator::ConsensusMsg::V2(m) = &msg.msg
         else {
-            return Err("OtherProtocolVersion".into());
+            return Err(StepError::OtherProtocolVersion);
         };
         match m {
             validator::v2::ChonkyMsg::LeaderProposal(_) => self
                 .sm
                 .on_proposal(ctx, msg.cast().unwrap())
                 .await
-                .map_err(|e| format!("{e:?}")),
+                .map_err(|e| match e {
+                    proposal::Error::Old { .. } => StepError::Old,
+                    proposal::Error::InvalidLeader { .. } => StepError::InvalidLeader,
+                    proposal::Error::InvalidSignature(_) => StepError::InvalidSignature,
+                    proposal::Error::InvalidMessage(e) => StepError::InvalidProposal(e),
+                    proposal::Error::ProposalAlreadyPruned => StepError::ProposalAlreadyPruned,
+                    proposal::Error::ReproposalWithPayload => StepError::ReproposalWithPayload,
+                    proposal::Error::MissingPayload => StepError::MissingPayload,
+                    proposal::Error::ProposalOversizedPayload { .. } => StepError::OversizedPayload,
+                    proposal::Error::MissingPreviousPayload { .. } => {
+                        StepError::MissingPreviousPayload
+                    }
+                    proposal::Error::InvalidPayload(_) => StepError::InvalidPayload,
+                    proposal::Error::Internal(e) => internal(e),
+                }),
             validator::v2::ChonkyMsg::ReplicaCommit(_) => self
                 .sm
                 .on_commit(ctx, msg.cast().unwrap())
                 .await
-                .map_err(|e| format!("{e:?}")),
+                .map_err(|e| match e {
+                    commit::Error::NonValidatorSigner { .. } => StepError::NonValidatorSigner,
+                    commit::Error::Old { .. } => StepError::Old,
+                    commit::Error::DuplicateSigner { .. } => StepError::DuplicateSigner,
+                    commit::Error::InvalidSignature(_) => StepError::InvalidSignature,
+                    commit::Error::InvalidMessage(e) => StepError::InvalidCommit(e),
+                    commit::Error::Internal(e) => internal(e),
+                }),
             validator::v2::ChonkyMsg::ReplicaTimeout(_) => self
                 .sm
                 .on_timeout(ctx, msg.cast().unwrap())
                 .await
-                .map_err(|e| format!("{e:?}")),
+                .map_err(|e| match e {
+                    timeout::Error::NonValidatorSigner { .. } => StepError::NonValidatorSigner,
+                    timeout::Error::Old { .. } => StepError::Old,
+                    timeout::Error::DuplicateSigner { .. } => StepError::DuplicateSigner,
+                    timeout::Error::InvalidSignature(_) => StepError::InvalidSignature,
+                    timeout::Error::InvalidMessage(e) => StepError::InvalidTimeout(e),
+                    timeout::Error::Internal(e) => internal(e),
+                }),
             validator::v2::ChonkyMsg::ReplicaNewView(_) => self
                 .sm
                 .on_new_view(ctx, msg.cast().unwrap())
                 .await
-                .map_err(|e| format!("{e:?}")),
+                .map_err(|e| match e {
+                    new_view::Error::NonValidatorSigner { .. } => StepError::NonValidatorSigner,
+                    new_view::Error::Old { .. } => StepError::Old,
+                    new_view::Error::InvalidSignature(_) => StepError::InvalidSignature,
+                    new_view::Error::InvalidMessage(e) => StepError::InvalidNewView(e),
+                    new_view::Error::Internal(e) => internal(e),
+                }),
         }
-    }
-
-    /// Messages the replica has sent since the last call, in order.
-    pub fn drain_outbound(&mut self) -> Vec<validator::Signed<validator::ConsensusMsg>> {
-        let mut out = vec![];
-        while let Some(m) = self.outbound.try_recv() {
-            out.push(m.message);
-        }
-        out
     }
 
     /// Justification handed to the proposer since the last call, if any.
